@@ -21,6 +21,9 @@ CONFIGS = [
          react={">A": 0.6, "<A": 0.6, "$TA": 0.3, "$TB": 0.3, "$TC": 0.0, "$TD": 0.0},
          cond={"$TA": {"$TC": 1.0, "$TD": 1.0, "$TA": 0, "$TB": 0}, "$TB": {"$TC": 1.0, "$TD": 1.0, "$TA": 0, "$TB": 0}},
          terminal=["$TA", "$TB", "$TC", "$TD"], targets=[200, 600]),
+    dict(name="brushstart", frags="{#PMA=[>]CC[<]C(=O)OC[>A],#PEG=[<A]COC[>A][$A],#OH=[$B]O}", all_atom=True,
+         react={"<": 0.1, ">": 0.1, ">A": 0.8, "<A": 0.8, "$A": 0.3, "$B": 0.0},
+         cond={"$A": {"$A": 0, "$B": 1.0}}, terminal=["$A", "$B"], targets=[300], start_fragment="PEG"),
     dict(name="orders", frags="{#A=[$]=CC[$],#B=[$]=C(F)C=[$],#C=[$]O[$]}", all_atom=True,
          react={}, cond={}, terminal=[], targets=[120, 400]),
     dict(name="dirorders", frags="{#A=[>]=CC[<],#B=[<]=C(N)C[>],#C=[>x]O[<x]=[<]}", all_atom=True,
